@@ -139,11 +139,28 @@ Proof. intros H. destruct n; cbn [dshortlong_usage]; repeat first [apply extk_dc
 Lemma extk_dshortlong_item k pre d n : extk k pre d -> extk k pre (dshortlong_item d n).
 Proof. intros H. destruct n; cbn [dshortlong_item]; repeat first [apply extk_dchar | apply extk_dwrite]; exact H. Qed.
 
+(* ------------------------------------------------------------------ what a user's document looks like *)
+(* The Doc API (text / literal / emphasis / invalid / meta / doc / em_doc) builds balanced documents
+   whose blocks are InlineBlock, Mono and Section3: never Block::Meta (html: todo!()) nor
+   Block::TermRef (roff: todo!()). *)
+Definition allowed (ok : block -> bool) (d : doc) : bool :=
+  forallb (fun t => match t with TText _ _ => true | TStart b | TEnd b => ok b end) d.
+Definition userblock (b : block) : bool :=
+  match b with BMeta | BTermRef => false | _ => true end.
+Definition good (d : doc) : Prop := neutral d /\ allowed userblock d = true.
+Definition ogood (o : option doc) : Prop := match o with Some d => good d | None => True end.
+Lemma good_neutral d : good d -> neutral d.
+Proof. intros H; apply H. Qed.
+Lemma ogood_oneutral o : ogood o -> oneutral o.
+Proof. destruct o; [apply good_neutral|auto]. Qed.
+Lemma good_text sty s : good [TText sty s].
+Proof. split; [apply neutral_text|reflexivity]. Qed.
+
 (* ------------------------------------------------------------------ documents inside metadata *)
-Definition named_ok (n : named) : Prop := oneutral (n_help n).
+Definition named_ok (n : named) : Prop := ogood (n_help n).
 Definition info_ok (i : info) : Prop :=
-  oneutral (i_version i) /\ oneutral (i_descr i) /\ oneutral (i_header i) /\ oneutral (i_footer i) /\
-  oneutral (i_usage i) /\ named_ok (i_help_arg i) /\ named_ok (i_version_arg i).
+  ogood (i_version i) /\ ogood (i_descr i) /\ ogood (i_header i) /\ ogood (i_footer i) /\
+  ogood (i_usage i) /\ named_ok (i_help_arg i) /\ named_ok (i_version_arg i).
 
 Fixpoint mok (m : meta) : Prop :=
   let all := fix all (xs : list meta) : Prop :=
@@ -151,15 +168,15 @@ Fixpoint mok (m : meta) : Prop :=
   match m with
   | MAnd xs | MOr xs => all xs
   | MOptional x | MRequired x | MAdjacent x | MMany x | MStrict x => mok x
-  | MSubsection x d | MSuffix x d | MCustomUsage x d => mok x /\ neutral d
+  | MSubsection x d | MSuffix x d | MCustomUsage x d => mok x /\ good d
   | MItem i => iok i
   | MSkip => True
   end
 with iok (i : item) : Prop :=
   match i with
-  | IAny mv _ h => neutral mv /\ oneutral h
-  | IPositional _ h | IFlag _ _ _ h | IArgument _ _ _ _ h => oneutral h
-  | ICommand _ _ h m inf => oneutral h /\ mok m /\ info_ok inf
+  | IAny mv _ h => good mv /\ ogood h
+  | IPositional _ h | IFlag _ _ _ h | IArgument _ _ _ _ h => ogood h
+  | ICommand _ _ h m inf => ogood h /\ mok m /\ info_ok inf
   end.
 
 Fixpoint mok_all (xs : list meta) : Prop :=
@@ -314,11 +331,11 @@ Qed.
 (* ------------------------------------------------------------------ help items *)
 Definition hok (it : helpitem) : Prop :=
   match it with
-  | HDecorSuffix help _ | HGroupStart help _ => neutral help
+  | HDecorSuffix help _ | HGroupStart help _ => good help
   | HGroupEnd _ | HAnywhereStop _ => True
-  | HAny mv _ help => neutral mv /\ oneutral help
-  | HPositional _ help | HFlag _ _ help | HArgument _ _ _ help => oneutral help
-  | HCommand _ _ help m i => oneutral help /\ mok m /\ info_ok i
+  | HAny mv _ help => good mv /\ ogood help
+  | HPositional _ help | HFlag _ _ help | HArgument _ _ _ help => ogood help
+  | HCommand _ _ help m i => ogood help /\ mok m /\ info_ok i
   | HAnywhereStart inner _ => mok inner
   end.
 Definition plain (it : helpitem) : bool := negb (is_group_start it || is_group_end it).
@@ -329,7 +346,7 @@ Inductive wfi : list helpitem -> Prop :=
 | wfi_nil : wfi []
 | wfi_plain it l : pok it -> wfi l -> wfi (it :: l)
 | wfi_grp h ty ty' mid l :
-    neutral h -> Forall pok mid -> wfi l -> wfi (HGroupStart h ty :: mid ++ HGroupEnd ty' :: l).
+    good h -> Forall pok mid -> wfi l -> wfi (HGroupStart h ty :: mid ++ HGroupEnd ty' :: l).
 
 Lemma wfi_of_plain l : Forall pok l -> wfi l.
 Proof. induction 1; constructor; assumption. Qed.
@@ -361,18 +378,18 @@ Qed.
 Lemma extk_item_plain k pre d it ie :
   pok it -> extk k pre d -> extk k pre (write_help_item env d it ie).
 Proof.
-  intros [Hp Hk] H. destruct it; cbn [write_help_item]; try discriminate Hp.
-  - apply extk_end, extk_ddoc; [exact Hk|]. apply extk_start, extk_end, extk_start, H.
-  - apply extk_dbody; [apply Hk|]. apply extk_end, extk_ddoc; [apply Hk|]. apply extk_start, H.
-  - apply extk_dbody; [exact Hk|]. apply extk_end, extk_dmetavar, extk_start, H.
-  - apply extk_dbody; [apply Hk|]. apply extk_end.
+  intros [Hp Hk] H. destruct it; cbn [write_help_item]; try discriminate Hp; cbn [hok] in Hk.
+  - apply extk_end, extk_ddoc; [apply Hk|]. apply extk_start, extk_end, extk_start, H.
+  - apply extk_dbody; [apply ogood_oneutral, Hk|]. apply extk_end, extk_ddoc; [apply Hk|]. apply extk_start, H.
+  - apply extk_dbody; [apply ogood_oneutral, Hk|]. apply extk_end, extk_dmetavar, extk_start, H.
+  - apply extk_dbody; [apply ogood_oneutral, Hk|]. apply extk_end.
     destruct short; [apply extk_dchar, extk_dwrite|]; apply extk_dwrite, extk_start, H.
   - assert (H1 : extk k pre (dbody (dtok (dshortlong_item (dtok d (TStart BItemTerm)) name) (TEnd BItemTerm)) help)).
-    { apply extk_dbody; [exact Hk|]. apply extk_end, extk_dshortlong_item, extk_start, H. }
+    { apply extk_dbody; [apply ogood_oneutral, Hk|]. apply extk_end, extk_dshortlong_item, extk_start, H. }
     destruct env0; [apply extk_denv_line|]; exact H1.
   - assert (H1 : extk k pre (dbody (dtok (dmetavar (dchar (dshortlong_item (dtok d (TStart BItemTerm)) name) SText c_eq) metavar)
                                          (TEnd BItemTerm)) help)).
-    { apply extk_dbody; [exact Hk|]. apply extk_end, extk_dmetavar, extk_dchar, extk_dshortlong_item, extk_start, H. }
+    { apply extk_dbody; [apply ogood_oneutral, Hk|]. apply extk_end, extk_dmetavar, extk_dchar, extk_dshortlong_item, extk_start, H. }
     destruct env0; [apply extk_denv_line|]; exact H1.
   - apply extk_end, extk_dwrite_meta; [exact Hk|]. apply extk_start, H.
   - apply extk_end, extk_start, H.
@@ -501,14 +518,16 @@ Lemma wfi_split l : wfi l ->
   Forall pok l \/
   exists pl h ty mid ty' rest,
     l = pl ++ HGroupStart h ty :: mid ++ HGroupEnd ty' :: rest /\
-    Forall pok pl /\ neutral h /\ Forall pok mid /\ wfi rest.
+    Forall pok pl /\ good h /\ Forall pok mid /\ wfi rest.
 Proof.
   induction 1 as [|it l Hit Hl IH|h ty ty' mid l Hh Hm Hl IH].
   - left. constructor.
   - destruct IH as [IH|(pl & h & ty & mid & ty' & rest & E & A & B & C & D)].
     + left. constructor; assumption.
-    + right. exists (it :: pl), h, ty, mid, ty', rest. subst l. repeat split; auto.
-  - right. exists [], h, ty, mid, ty', l. repeat split; auto.
+    + right. exists (it :: pl), h, ty, mid, ty', rest. subst l.
+      split; [reflexivity|]. split; [constructor; assumption|]. split; [exact B|]. split; assumption.
+  - right. exists [], h, ty, mid, ty', l.
+    split; [reflexivity|]. split; [constructor|]. split; [exact Hh|]. split; assumption.
 Qed.
 
 Lemma firstn_snoc {A} (l : list A) x r : firstn (S (length l)) (l ++ x :: r) = l ++ [x].
@@ -570,7 +589,7 @@ Proof.
         with (S (ngroups (mid ++ HGroupEnd ty' :: rest))) in Hn.
       rewrite ngroups_app, (ngroups_plain mid C) in Hn.
       change (ngroups (HGroupEnd ty' :: rest)) with (ngroups rest) in Hn. lia.
-    + apply extk_deduped_group; assumption.
+    + apply extk_deduped_group; [apply good_neutral, B|exact C|exact H].
 Qed.
 
 Lemma forall_items_of_ty ty : forall items blk, Forall pok items -> Forall pok (items_of_ty ty blk items).
@@ -635,6 +654,7 @@ Theorem render_help_neutral path inf pm hm ie :
   exists d, render_help env path inf pm hm ie = Some d /\ neutral d.
 Proof.
   intros (Hv & Hd & Hh & Hf & Hu & Hha & Hva) Hpm Hhm. unfold render_help.
+  apply ogood_oneutral in Hd. apply ogood_oneutral in Hh. apply ogood_oneutral in Hf. apply ogood_oneutral in Hu.
   assert (H0 : ext [] (dblock [] (i_descr inf))) by (apply extk_dblock; [exact Hd|apply ext_refl]).
   assert (H2 : ext [] (dtok (match i_usage inf with
             | Some u => ddoc (dtok (dblock [] (i_descr inf)) (TStart BBlock)) u
@@ -748,6 +768,7 @@ Proof.
     inversion Hl as [|s' l' Hsk Hl']; subst. apply IH; [assumption|].
     destruct od as [d1|]; [|exact I]. cbn [oext] in Hod.
     destruct Hsk as [Hsm Hsi]. pose proof Hsi as (Hv & Hd & Hh & Hf & Hu & Hha & Hva).
+    apply ogood_oneutral in Hd. apply ogood_oneutral in Hh. apply ogood_oneutral in Hf.
     assert (A1 : ext [] (if many then dtok (dwrite_path (dtok d1 (TStart BHeader)) (sec_path s)) (TEnd BHeader) else d1)).
     { destruct many; [|exact Hod]. apply extk_end, extk_dwrite_path, extk_start, Hod. }
     match goal with |- context [write_help_item_groups env ?d5 ?items false] =>
@@ -771,14 +792,14 @@ End Docs.
 Fixpoint pdok (p : parser) : Prop :=
   match p with
   | PFlag n _ _ | PArg n _ _ _ => named_ok n
-  | PPos _ _ _ help => oneutral help
-  | PAny mv help _ _ => neutral mv /\ oneutral help
-  | PCmd _ _ _ help _ sub => oneutral help /\ odok sub
+  | PPos _ _ _ help => ogood help
+  | PAny mv help _ _ => good mv /\ ogood help
+  | PCmd _ _ _ help _ sub => ogood help /\ odok sub
   | PCon fs | PAdj fs => pldok fs
   | POr a b => pdok a /\ pdok b
   | POptional q _ | PMany q _ | PSome q _ _ | PCollect q _ | PCount q | PLast q
   | PFallback q _ _ | PFallbackWith q _ _ | PGuard q _ _ | PParse q _ | PMap q _ | PBoxed q => pdok q
-  | PUsage q d | PGroupHelp q d => pdok q /\ neutral d
+  | PUsage q d | PGroupHelp q d => pdok q /\ good d
   | PHide _ | PPure _ | PPureWith _ | PFail _ => True
   end
 with pldok (ps : plist) : Prop :=
@@ -799,7 +820,7 @@ Qed.
 
 Lemma mok_with_suffix m shown : mok m -> mok (with_suffix m shown).
 Proof.
-  intros H. unfold with_suffix. destruct (is_nil shown); [exact H|]. split; [exact H|apply neutral_text].
+  intros H. unfold with_suffix. destruct (is_nil shown); [exact H|]. split; [exact H|apply good_text].
 Qed.
 
 Theorem meta_of_ok :
@@ -988,4 +1009,368 @@ Theorem html_well_nested_parser env app o full d evs : odok o ->
 Proof.
   intros Ho E R. destruct (proj2 (proj2 meta_of_ok) o Ho) as [Hm Hi].
   apply (html_well_nested full d evs); [|exact R]. apply neutral_bal. eapply collect_html_neutral; eassumption.
+Qed.
+
+(* ------------------------------------------------------------------ which blocks the documents contain *)
+(* html: Block::Meta is todo!(); roff: Block::TermRef is todo!().  The documents bpaf builds for a parser
+   contain neither (the manpage document contains Meta, which roff renders). *)
+Section Allowed.
+Variable ok : block -> bool.
+Hypothesis Hok : forall b, userblock b = true -> ok b = true.
+Notation al d := (allowed ok d = true).
+
+Lemma al_app a b : al a -> al b -> al (a ++ b).
+Proof. intros Ha Hb. unfold allowed. rewrite forallb_app. unfold allowed in Ha, Hb. rewrite Ha, Hb. reflexivity. Qed.
+Lemma al_app_inv a b : al (a ++ b) -> al a /\ al b.
+Proof. unfold allowed. rewrite forallb_app. intros H. apply andb_prop in H. exact H. Qed.
+Lemma al_good d : good d -> al d.
+Proof.
+  intros [_ H]. unfold allowed in *. rewrite forallb_forall in *. intros t Ht. specialize (H t Ht).
+  destruct t; [reflexivity|apply Hok, H|apply Hok, H].
+Qed.
+
+Lemma al_dtok d t : al d -> al [t] -> al (dtok d t).
+Proof. intros. unfold dtok. apply al_app; assumption. Qed.
+Lemma al_start d b : userblock b = true -> al d -> al (dtok d (TStart b)).
+Proof. intros Hb H. apply al_dtok; [exact H|]. cbn. rewrite (Hok b Hb). reflexivity. Qed.
+Lemma al_end d b : userblock b = true -> al d -> al (dtok d (TEnd b)).
+Proof. intros Hb H. apply al_dtok; [exact H|]. cbn. rewrite (Hok b Hb). reflexivity. Qed.
+
+Lemma al_dwrite d sty s : al d -> al (dwrite d sty s).
+Proof.
+  intros H. unfold dwrite. destruct (rev d) as [|[sty' s'|b|b] r] eqn:E; try (apply al_app; [exact H|reflexivity]).
+  destruct (style_eqb sty sty'); [|apply al_app; [exact H|reflexivity]].
+  assert (Hd : d = rev r ++ [TText sty' s']) by (rewrite <- (rev_involutive d), E; reflexivity).
+  cbn [rev]. rewrite Hd in H. apply al_app_inv in H. apply al_app; [apply H|reflexivity].
+Qed.
+Lemma al_dchar d sty c : al d -> al (dchar d sty c).
+Proof. apply al_dwrite. Qed.
+
+Lemma al_ddoc d buf : al buf -> al d -> al (ddoc d buf).
+Proof.
+  intros Hb H. unfold ddoc. apply al_app; [exact H|]. apply al_app; [cbn; rewrite Hok; reflexivity|].
+  apply al_app; [exact Hb|cbn; rewrite Hok; reflexivity].
+Qed.
+
+Lemma al_dem_doc d buf : al buf -> al d -> al (dem_doc d buf).
+Proof.
+  intros Hb H. unfold dem_doc. apply al_end; [reflexivity|].
+  pose proof (al_start d BInlineBlock eq_refl H) as H0.
+  destruct buf as [|[sty prefix|b|b] rest]; try (apply al_app; assumption).
+  destruct sty; try (apply al_app; assumption).
+  destruct (split_once_nl prefix) as [[a b]|].
+  - apply al_end; [reflexivity|]. apply al_app; [|apply (al_app_inv [TText SText prefix] rest Hb)].
+    apply al_dwrite, al_start; [reflexivity|]. apply al_dwrite, H0.
+  - apply al_dwrite, H0.
+Qed.
+
+Lemma al_dmetavar d mv : al d -> al (dmetavar d mv).
+Proof. intros H. unfold dmetavar. destruct (forallb is_metavar_char mv); repeat apply al_dwrite; exact H. Qed.
+Lemma al_dshortlong_usage d n : al d -> al (dshortlong_usage d n).
+Proof. intros H. destruct n; cbn [dshortlong_usage]; repeat first [apply al_dchar | apply al_dwrite]; exact H. Qed.
+Lemma al_dshortlong_item d n : al d -> al (dshortlong_item d n).
+Proof. intros H. destruct n; cbn [dshortlong_item]; repeat first [apply al_dchar | apply al_dwrite]; exact H. Qed.
+
+Lemma al_dwrite_item d i : iok i -> al d -> al (dwrite_item d i).
+Proof.
+  intros Hi H. destruct i; cbn [dwrite_item].
+  - apply al_ddoc; [apply al_good, Hi|exact H].
+  - apply al_dmetavar, H.
+  - apply al_dwrite, H.
+  - apply al_dshortlong_usage, H.
+  - apply al_dmetavar, al_dchar, al_dshortlong_usage, H.
+Qed.
+
+Lemma al_wm_sep s xs :
+  Forall (fun m => forall d, al d -> al (wm_go m d)) xs ->
+  forall first d, al d -> al (wm_sep s first xs d).
+Proof.
+  induction 1 as [|x t Hx _ IH]; intros first d H; cbn [wm_sep]; [exact H|].
+  apply IH. apply Hx. destruct first; [exact H|apply al_dwrite, H].
+Qed.
+
+Lemma al_wm_go m : mok m -> forall d, al d -> al (wm_go m d).
+Proof.
+  induction m as [xs IHxs|xs IHxs|m IHm|m IHm|m IHm|i|m IHm|m dd IHm|m dd IHm| |m dd IHm|m IHm] using meta_ind';
+    intros Hm d H.
+  - rewrite wm_go_and. rewrite mok_and in Hm. apply mok_all_forall in Hm.
+    apply al_wm_sep; [|exact H].
+    clear H d. induction IHxs as [|x t Hx _ IH]; [constructor|]. inversion Hm; subst. constructor; [auto|apply IH; assumption].
+  - rewrite wm_go_or. rewrite mok_or in Hm. apply mok_all_forall in Hm.
+    apply al_wm_sep; [|exact H].
+    clear H d. induction IHxs as [|x t Hx _ IH]; [constructor|]. inversion Hm; subst. constructor; [auto|apply IH; assumption].
+  - cbn [wm_go]. apply al_dwrite, IHm; [exact Hm|]. apply al_dwrite, H.
+  - cbn [wm_go]. apply al_dwrite, IHm; [exact Hm|]. apply al_dwrite, H.
+  - cbn [wm_go]. apply IHm; assumption.
+  - cbn [wm_go]. apply al_dwrite_item; assumption.
+  - cbn [wm_go]. apply al_dwrite, IHm; assumption.
+  - cbn [wm_go]. apply IHm; [apply Hm|exact H].
+  - cbn [wm_go]. apply IHm; [apply Hm|exact H].
+  - exact H.
+  - cbn [wm_go]. apply al_ddoc; [apply al_good, Hm|exact H].
+  - cbn [wm_go]. apply IHm; [exact Hm|]. apply al_dwrite, al_dwrite, H.
+Qed.
+
+Lemma al_dwrite_meta d m fu : mok m -> al d -> al (dwrite_meta d m fu).
+Proof.
+  intros Hm H. unfold dwrite_meta. apply al_end; [reflexivity|]. apply al_wm_go; [apply normalized_ok, Hm|].
+  apply al_start; [reflexivity|exact H].
+Qed.
+Lemma al_dwrite_path path : forall d, al d -> al (dwrite_path d path).
+Proof.
+  unfold dwrite_path. induction path as [|p t IH]; intros d H; cbn [fold_left]; [exact H|].
+  apply IH. apply al_dchar, al_dwrite, H.
+Qed.
+
+Variable env : bytes -> option bytes.
+
+Lemma al_dbody d h : ogood h -> al d -> al (dbody d h).
+Proof.
+  intros Hh H. destruct h as [x|]; cbn [dbody]; [|exact H].
+  apply al_end; [reflexivity|]. apply al_ddoc; [apply al_good, Hh|]. apply al_start; [reflexivity|exact H].
+Qed.
+Lemma al_denv_line d a b e v : al d -> al (denv_line d a b e v).
+Proof.
+  intros H. unfold denv_line. apply al_end; [reflexivity|].
+  assert (H1 : al (if a then dtok (dtok d (TStart BItemTerm)) (TEnd BItemTerm) else d)).
+  { destruct a; [apply al_end; [reflexivity|]; apply al_start; [reflexivity|exact H]|exact H]. }
+  destruct b; repeat apply al_dwrite; (apply al_start; [reflexivity|exact H1]).
+Qed.
+
+Ltac al_blocks := repeat first [ apply al_end; [reflexivity|] | apply al_start; [reflexivity|] | apply al_dwrite | apply al_dchar
+                               | apply al_dmetavar | apply al_dshortlong_item ].
+
+Lemma al_write_help_item d it ie : hok it -> al d -> al (write_help_item env d it ie).
+Proof.
+  intros Hk H. destruct it; cbn [write_help_item]; cbn [hok] in Hk.
+  - apply al_end; [reflexivity|]. apply al_ddoc; [apply al_good, Hk|]. al_blocks. exact H.
+  - apply al_start; [reflexivity|]. apply al_end; [reflexivity|]. apply al_dem_doc; [apply al_good, Hk|]. al_blocks. exact H.
+  - al_blocks. exact H.
+  - apply al_dbody; [apply Hk|]. apply al_end; [reflexivity|]. apply al_ddoc; [apply al_good, Hk|]. al_blocks. exact H.
+  - apply al_dbody; [exact Hk|]. al_blocks. exact H.
+  - apply al_dbody; [apply Hk|]. apply al_end; [reflexivity|].
+    destruct short; al_blocks; exact H.
+  - assert (H1 : al (dbody (dtok (dshortlong_item (dtok d (TStart BItemTerm)) name) (TEnd BItemTerm)) help)).
+    { apply al_dbody; [exact Hk|]. al_blocks. exact H. }
+    destruct env0; [apply al_denv_line|]; exact H1.
+  - assert (H1 : al (dbody (dtok (dmetavar (dchar (dshortlong_item (dtok d (TStart BItemTerm)) name) SText c_eq) metavar)
+                                 (TEnd BItemTerm)) help)).
+    { apply al_dbody; [exact Hk|]. al_blocks. exact H. }
+    destruct env0; [apply al_denv_line|]; exact H1.
+  - apply al_end; [reflexivity|]. apply al_dwrite_meta; [exact Hk|]. al_blocks. exact H.
+  - al_blocks. exact H.
+Qed.
+
+Lemma al_write_deduped items ie : Forall hok items ->
+  forall d seen kf, al d -> al (write_deduped env d items seen kf ie).
+Proof.
+  induction 1 as [|it t Hit _ IH]; intros d seen kf H; cbn [write_deduped]; [exact H|].
+  destruct (dedup_check seen kf it) as [[keep seen'] kf']. apply IH.
+  destruct keep; [apply al_write_help_item; assumption|exact H].
+Qed.
+
+Lemma forall_firstn {A} (P : A -> Prop) n l : Forall P l -> Forall P (firstn n l).
+Proof. revert l. induction n as [|n IH]; intros l H; cbn [firstn]; [constructor|]. destruct H; constructor; auto. Qed.
+Lemma forall_skipn {A} (P : A -> Prop) n l : Forall P l -> Forall P (skipn n l).
+Proof. revert l. induction n as [|n IH]; intros l H; cbn [skipn]; [exact H|]. destruct H; [constructor|auto]. Qed.
+
+Lemma al_write_groups ie : forall fuel items d d' rest,
+  Forall hok items -> al d -> write_groups env fuel d items ie = Some (d', rest) -> al d' /\ Forall hok rest.
+Proof.
+  induction fuel as [|f IH]; intros items d d' rest Hi H E; [discriminate|]. cbn [write_groups] in E.
+  destruct (Help.position is_group_start items) as [a|]; [|inversion E; subst; auto].
+  destruct (Help.position is_group_end items) as [b|]; [|inversion E; subst; auto].
+  destruct (Nat.leb a b); [|discriminate].
+  eapply IH; [| |exact E].
+  - apply Forall_app; split; [apply forall_firstn, Hi|apply forall_skipn, Hi].
+  - apply al_write_deduped; [|exact H]. apply forall_firstn, forall_skipn, Hi.
+Qed.
+
+Lemma forall_hok_items_of_ty ty : forall items blk, Forall hok items -> Forall hok (items_of_ty ty blk items).
+Proof.
+  induction items as [|it t IH]; intros blk H; cbn [items_of_ty]; [constructor|]. inversion H; subst.
+  match goal with |- context [let '(keep, blk') := ?x in _] => destruct x as [keep blk'] end.
+  destruct keep; [constructor; [assumption|]|]; apply IH; assumption.
+Qed.
+
+Lemma al_write_help_items d items ty name ie : Forall hok items -> al d -> al (write_help_items env d items ty name ie).
+Proof.
+  intros Hi H. unfold write_help_items.
+  pose proof (forall_hok_items_of_ty ty items IBNo Hi) as Hx.
+  destruct (items_of_ty ty IBNo items) as [|x xs]; [exact H|].
+  apply al_end; [reflexivity|]. apply al_end; [reflexivity|]. apply al_write_deduped; [exact Hx|].
+  al_blocks. exact H.
+Qed.
+
+Lemma al_write_help_item_groups d items ie d' : Forall hok items -> al d ->
+  write_help_item_groups env d items ie = Some d' -> al d'.
+Proof.
+  intros Hi H E. unfold write_help_item_groups in E.
+  destruct (write_groups env (S (length items)) d items ie) as [[d1 rest]|] eqn:Eg; [|discriminate].
+  destruct (al_write_groups ie _ _ _ _ _ Hi H Eg) as [H1 Hr]. inversion E; subst.
+  repeat apply al_write_help_items; assumption.
+Qed.
+
+Lemma al_dblock d t : ogood t -> al d -> al (dblock d t).
+Proof.
+  intros Ht H. destruct t as [x|]; cbn [dblock]; [|exact H].
+  apply al_end; [reflexivity|]. apply al_ddoc; [apply al_good, Ht|]. apply al_start; [reflexivity|exact H].
+Qed.
+
+Lemma al_render_help path inf pm hm ie d :
+  info_ok inf -> mok pm -> mok hm -> render_help env path inf pm hm ie = Some d -> al d.
+Proof.
+  intros (Hv & Hd & Hh & Hf & Hu & Hha & Hva) Hpm Hhm E. unfold render_help in E.
+  match type of E with match write_help_item_groups env ?d3 ?items ie with _ => _ end = _ =>
+    destruct (write_help_item_groups env d3 items ie) as [d4|] eqn:E4; [|discriminate];
+    assert (H3 : al d3); [|
+    assert (Hw : Forall hok items) by
+      (apply wfi_hok, append_meta_wfi; [apply append_meta_wfi; [constructor|exact Hpm]|exact Hhm]) ]
+  end.
+  - apply al_dblock; [exact Hh|]. apply al_end; [reflexivity|].
+    assert (H0 : al (dtok (dblock [] (i_descr inf)) (TStart BBlock))).
+    { apply al_start; [reflexivity|]. apply al_dblock; [exact Hd|reflexivity]. }
+    destruct (i_usage inf) as [u|].
+    + apply al_ddoc; [apply al_good, Hu|exact H0].
+    + apply al_end; [reflexivity|]. apply al_dwrite_meta; [exact Hpm|]. apply al_dwrite_path.
+      apply al_start; [reflexivity|]. apply al_dwrite, al_dwrite, H0.
+  - inversion E; subst. apply al_dblock; [exact Hf|]. eapply al_write_help_item_groups; eassumption.
+Qed.
+
+Theorem al_collect_html app m inf d :
+  mok m -> info_ok inf -> collect_html env app m inf = Some d -> al d.
+Proof.
+  intros Hm Hi E. unfold collect_html in E.
+  destruct (extract_sections m inf app) as [secs|] eqn:Es; [|discriminate].
+  assert (Hs : Forall sec_ok secs) by (eapply sections_ok; eassumption).
+  match type of E with fold_left ?F secs (Some ?d0) = _ =>
+    assert (H0 : al d0);
+    [|assert (HF : forall l od, Forall sec_ok l -> match od with Some x => al x | None => True end ->
+                                 match fold_left F l od with Some x => al x | None => True end)]
+  end.
+  - destruct secs as [|s1 [|s2 t]]; try reflexivity.
+    match goal with |- al (fold_left ?G _ _) =>
+      assert (HG : forall l d, al d -> al (fold_left G l d))
+    end.
+    { induction l as [|s l IH]; intros d1 H1; cbn [fold_left]; [exact H1|].
+      apply IH. apply al_end; [reflexivity|]. unfold dtext. apply al_dwrite. apply al_start; [reflexivity|exact H1]. }
+    apply HG. unfold dtext. al_blocks. reflexivity.
+  - induction l as [|s l IH]; intros od Hl Hod; cbn [fold_left]; [exact Hod|].
+    inversion Hl as [|s' l' [Hsm Hsi] Hl']; subst. apply IH; [assumption|].
+    destruct od as [d1|]; [|exact I].
+    destruct (render_help env (sec_path s) (sec_info s) (sec_meta s) (info_meta (sec_info s)) false) as [b|] eqn:Eb; [|exact I].
+    apply al_ddoc; [eapply al_render_help; [exact Hsi|exact Hsm|apply mok_info_meta, Hsi|exact Eb]|].
+    apply al_end; [reflexivity|]. unfold dtext. apply al_dwrite. apply al_start; [reflexivity|exact Hod].
+  - pose proof (HF secs (Some _) Hs H0) as HX.
+    match type of HX with match ?x with _ => _ end => replace x with (Some d) in HX by (symmetry; exact E) end.
+    exact HX.
+Qed.
+End Allowed.
+
+Section AllowedMan.
+Variable ok : block -> bool.
+Hypothesis Hok : forall b, userblock b = true -> ok b = true.
+Hypothesis HokMeta : ok BMeta = true.
+Variable env : bytes -> option bytes.
+Notation al d := (allowed ok d = true).
+
+Theorem al_manpage_doc app m inf d :
+  mok m -> info_ok inf -> manpage_doc env app m inf = Some d -> al d.
+Proof.
+  intros Hm Hi E. unfold manpage_doc in E.
+  destruct (extract_sections m inf app) as [secs|] eqn:Es; [|discriminate].
+  assert (Hs : Forall sec_ok secs) by (eapply sections_ok; eassumption).
+  set (many := match secs with _ :: _ :: _ => true | _ => false end) in *.
+  pose proof (al_start ok Hok) as Hstart. pose proof (al_end ok Hok) as Hend.
+  match type of E with fold_left ?F secs (Some ?d0) = _ =>
+    assert (H0 : al d0);
+    [|assert (HF : forall l od, Forall sec_ok l -> match od with Some x => al x | None => True end ->
+                                 match fold_left F l od with Some x => al x | None => True end)]
+  end.
+  - destruct many; [|reflexivity]. apply al_dtok; [|cbn; rewrite HokMeta; reflexivity].
+    match goal with |- al (fold_left ?G secs _) =>
+      assert (HG : forall l d, Forall sec_ok l -> al d -> al (fold_left G l d))
+    end.
+    { induction l as [|s l IH]; intros d1 Hl H1; cbn [fold_left]; [exact H1|]. inversion Hl as [|s' l' Hsk Hl']; subst.
+      apply IH; [assumption|]. unfold dtext. apply al_dwrite, al_dwrite_meta; [exact Hok|apply Hsk|].
+      generalize (sec_path s). intros p. revert d1 H1. induction p as [|q p IHp]; intros d1 H1; cbn [fold_left]; [exact H1|].
+      apply IHp. apply al_dwrite, al_dwrite, H1. }
+    apply HG; [exact Hs|]. apply al_dtok; [|cbn; rewrite HokMeta; reflexivity].
+    apply Hend; [reflexivity|]. apply Hend; [reflexivity|]. unfold dtext. apply al_dwrite.
+    apply Hstart; [reflexivity|]. apply Hstart; [reflexivity|reflexivity].
+  - induction l as [|s l IH]; intros od Hl Hod; cbn [fold_left]; [exact Hod|].
+    inversion Hl as [|s' l' [Hsm Hsi] Hl']; subst. apply IH; [assumption|].
+    destruct od as [d1|]; [|exact I].
+    pose proof Hsi as (Hv & Hd & Hh & Hf & Hu & Hha & Hva).
+    match goal with |- match (match write_help_item_groups env ?d5 ?items false with _ => _ end) with _ => _ end =>
+      destruct (write_help_item_groups env d5 items false) as [d6|] eqn:E6; [|exact I];
+      assert (A5 : al d5); [|
+      assert (Hw : Forall hok items) by
+        (apply wfi_hok, append_meta_wfi; [apply append_meta_wfi; [constructor|exact Hsm]|apply mok_info_meta, Hsi]) ]
+    end.
+    + assert (A1 : al (if many then dtok (dwrite_path (dtok d1 (TStart BHeader)) (sec_path s)) (TEnd BHeader) else d1)).
+      { destruct many; [|exact Hod]. apply Hend; [reflexivity|]. apply al_dwrite_path. apply Hstart; [reflexivity|exact Hod]. }
+      apply al_dblock; [exact Hok|exact Hh|]. apply al_dwrite_meta; [exact Hok|exact Hsm|]. apply al_dwrite_path.
+      apply Hend; [reflexivity|]. unfold dtext. apply al_dwrite. apply Hstart; [reflexivity|].
+      destruct (i_descr (sec_info s)) as [descr|]; [|exact A1].
+      apply al_ddoc; [exact Hok|apply al_good; [exact Hok|exact Hd]|]. unfold dtext. apply al_dwrite, al_dwrite.
+      apply Hend; [reflexivity|]. apply al_dwrite. apply Hstart; [reflexivity|exact A1].
+    + apply al_dblock; [exact Hok|exact Hf|]. eapply al_write_help_item_groups; [exact Hok|exact Hw|exact A5|exact E6].
+  - pose proof (HF secs (Some _) Hs H0) as HX.
+    match type of HX with match ?x with _ => _ end => replace x with (Some d) in HX by (symmetry; exact E) end.
+    exact HX.
+Qed.
+End AllowedMan.
+
+(* ------------------------------------------------------------------ the renderers return *)
+Definition no_meta (b : block) : bool := match b with BMeta => false | _ => true end.
+Definition no_termref (b : block) : bool := match b with BTermRef => false | _ => true end.
+
+Lemma html_run_some full : forall d st, allowed no_meta d = true -> exists evs, html_run full st d = Some evs.
+Proof.
+  induction d as [|t d IH]; intros st H; cbn [html_run]; [eexists; reflexivity|].
+  cbn [allowed forallb] in H. apply andb_prop in H. destruct H as [Ht Hd].
+  assert (Hs : exists e st', html_step full st t = Some (e, st')).
+  { destruct t as [sty s|b|b]; cbn [html_step].
+    - destruct (Nat.ltb 0 (hs_skip st)); [eexists; eexists; reflexivity|].
+      destruct (html_chunks full (split true s)); eexists; eexists; reflexivity.
+    - destruct b; try discriminate Ht; eexists; eexists; reflexivity.
+    - destruct b; try discriminate Ht; eexists; eexists; reflexivity. }
+  destruct Hs as (e & st' & Es). rewrite Es. destruct (IH st' Hd) as [r Er]. rewrite Er. eexists; reflexivity.
+Qed.
+
+Lemma roff_frags_some : forall d st, allowed no_termref d = true -> exists fs, roff_frags st d = Some fs.
+Proof.
+  induction d as [|t d IH]; intros st H; cbn [roff_frags]; [eexists; reflexivity|].
+  cbn [allowed forallb] in H. apply andb_prop in H. destruct H as [Ht Hd].
+  assert (Hs : exists e st', roff_step st t = Some (e, st')).
+  { destruct t as [sty s|b|b]; cbn [roff_step].
+    - destruct (rs_capturing st); eexists; eexists; reflexivity.
+    - destruct b; try discriminate Ht; eexists; eexists; reflexivity.
+    - destruct b; try discriminate Ht; eexists; eexists; reflexivity. }
+  destruct Hs as (e & st' & Es). rewrite Es. destruct (IH st' Hd) as [r Er]. rewrite Er. eexists; reflexivity.
+Qed.
+
+Theorem render_html_returns env app o full : odok o ->
+  exists d html, collect_html env app (ometa_of o) (oinfo_of o) = Some d /\ render_html full d = Some html.
+Proof.
+  intros Ho. destruct (proj2 (proj2 meta_of_ok) o Ho) as [Hm Hi].
+  destruct (collect_html_total env app _ _ Hm Hi) as (d & E & _).
+  assert (Ha : allowed no_meta d = true).
+  { apply (al_collect_html no_meta) with (env := env) (app := app) (m := ometa_of o) (inf := oinfo_of o); auto.
+    intros b Hb. destruct b; try reflexivity; discriminate Hb. }
+  destruct (html_run_some full d hs_init Ha) as [evs Ev].
+  exists d, (html_bytes evs). split; [exact E|]. unfold render_html, render_html_events. rewrite Ev. reflexivity.
+Qed.
+
+Theorem render_manpage_returns env app o : odok o ->
+  exists d man, manpage_doc env app (ometa_of o) (oinfo_of o) = Some d /\ render_roff (manpage_th app) d = Some man.
+Proof.
+  intros Ho. destruct (proj2 (proj2 meta_of_ok) o Ho) as [Hm Hi].
+  destruct (manpage_doc_total env app _ _ Hm Hi) as (d & E & _).
+  assert (Ha : allowed no_termref d = true).
+  { apply (al_manpage_doc no_termref) with (env := env) (app := app) (m := ometa_of o) (inf := oinfo_of o); auto.
+    intros b Hb. destruct b; try reflexivity; discriminate Hb. }
+  destruct (roff_frags_some d rs_init Ha) as [fs Ef].
+  eexists d, _. split; [exact E|]. unfold render_roff, render_roff_frags. rewrite Ef. reflexivity.
 Qed.
